@@ -290,7 +290,26 @@ func checkC01(c *Ctx, r *Report) {
 			r5.Check(derivesFrom(a[1], mk) && prefix != "" && derivesFrom(a[1], func(x ssa.Value) bool { s, ok := constString(x); return ok && s == prefix }),
 				tlsP+".PubKeyFromCertChain: message = certificatePrefix || PKIX(cert.PublicKey)", pk.Pos(), 1, "", "the signature is not checked over the certificate's own public key", "")
 			r5.Check(derivesFrom(a[2], func(x ssa.Value) bool { f, _ := loadOfField(x); return f != nil && f.Name() == "Signature" }) ||
-				derivesFrom(a[2], func(x ssa.Value) bool { al, ok := x.(*ssa.Alloc); return ok && al.Comment == "sk" }),
+				derivesFrom(a[2], func(x ssa.Value) bool {
+					// the local the extension value was unmarshalled into (its address is handed to asn1.Unmarshal)
+					al, ok := x.(*ssa.Alloc)
+					if !ok {
+						return false
+					}
+					for _, ref := range *al.Referrers() {
+						if ci, isC := ref.(ssa.CallInstruction); isC && calleeNameIs(ci.(ssa.Instruction), "Unmarshal") {
+							return true
+						}
+						if mi, isMI := ref.(*ssa.MakeInterface); isMI {
+							for _, r2 := range *mi.Referrers() {
+								if ci, isC := r2.(ssa.CallInstruction); isC && calleeNameIs(ci.(ssa.Instruction), "Unmarshal") {
+									return true
+								}
+							}
+						}
+					}
+					return false
+				}),
 				tlsP+".PubKeyFromCertChain: signature = extension's Signature", pk.Pos(), 1, "", "the signature verified is not the one in the key extension", "")
 		}
 	}
